@@ -173,12 +173,18 @@ type jw struct {
 	nFlush    int
 	cancel    context.CancelFunc
 	cof       bool // a failing call cancels the subscriber's own context, as net/http does on a write error
+	gate      chan struct{} // when set, the first Send blocks until the driver releases it (a slow client)
+	entered   chan struct{}
 }
 
 func (w *jw) Send(m *sse.Message) error {
 	w.nSend++
 	fail := w.failSend == w.nSend
 	w.t.log(jev{"e": "send", "s": w.id, "p": nameOf(m), "id": m.ID.String(), "idset": m.ID.IsSet(), "ok": !fail})
+	if w.gate != nil && w.nSend == 1 {
+		close(w.entered)
+		<-w.gate
+	}
 	if fail {
 		if w.cof {
 			w.t.log(jev{"e": "cancel", "s": w.id})
@@ -279,7 +285,14 @@ func runScenario(seed int64, focus string) (evs []jev, blocked bool, dump string
 	repKinds := []string{"finite-manual", "finite-auto", "valid-manual", "valid-auto", "finite3-manual", "none", "scripted"}
 	var repKind string
 	rcap := 0
+	slow := focus == "shutdown" && rng.Intn(5) == 0
+	switch {
+	case slow:
+		focus = "shutdown-slow"
+	}
 	switch focus {
+	case "shutdown-slow":
+		repKind = "none"
 	case "resume":
 		repKind = repKinds[rng.Intn(5)]
 	case "faults":
@@ -345,12 +358,16 @@ func runScenario(seed int64, focus string) (evs []jev, blocked bool, dump string
 		t.mu.Lock()
 		t.downs[ctx] = k
 		t.mu.Unlock()
-		t.log(jev{"e": "call.down", "k": k, "ctxdone": ctx.Err() != nil})
+		_, hasDeadline := ctx.Deadline()
+		t.log(jev{"e": "call.down", "k": k, "ctxdone": ctx.Err() != nil || hasDeadline})
 		err := j.Shutdown(ctx)
 		t.log(jev{"e": "ret.down", "k": k, "v": jerrClass(err)})
 	}
 
 	var wg sync.WaitGroup
+	if slow {
+		return slowSendScenario(seed, rng, t, j, pub, down)
+	}
 	if focus == "shutdown" && rng.Intn(6) == 0 {
 		// shutdown before anything else has initialised the provider
 		down("k9", context.WithValue(context.Background(), ctxKey{}, "k9"))
@@ -515,6 +532,59 @@ func runScenario(seed int64, focus string) (evs []jev, blocked bool, dump string
 }
 
 type ctxKey struct{}
+
+// slowSendScenario: Joe is held inside a subscriber's Send while a Shutdown whose context expires is
+// called: that Shutdown must return its context's error while the Send is still in progress (C07:
+// "its context's error if that ends first"); the driver releases the Send only afterwards.
+func slowSendScenario(seed int64, rng *rand.Rand, t *jtracer, j *sse.Joe, pub func(string, []string, string), down func(string, context.Context)) (evs []jev, blocked bool, dump string) {
+	ctx, cancel := context.WithCancel(context.Background())
+	defer cancel()
+	w := &jw{t: t, id: "s0", cancel: cancel, gate: make(chan struct{}), entered: make(chan struct{})}
+	t.mu.Lock()
+	t.subs[w] = "s0"
+	t.mu.Unlock()
+	var wg sync.WaitGroup
+	wg.Add(1)
+	go func() {
+		defer wg.Done()
+		t.log(jev{"e": "call.sub", "s": "s0", "t": []string{""}, "lid": "", "lidset": false, "lidname": ""})
+		err := j.Subscribe(ctx, sse.Subscription{Client: w, Topics: []string{""}})
+		t.log(jev{"e": "ret.sub", "s": "s0", "v": subClass(err)})
+	}()
+	t.waitFor("loop.register:s0")
+	wg.Add(1)
+	go func() { defer wg.Done(); pub("p0k0", []string{""}, "<none>") }()
+	fin := make(chan struct{})
+	go func() {
+		<-w.entered // Joe is inside Send now
+		dctx, dc := context.WithTimeout(context.WithValue(context.Background(), ctxKey{}, "k0"), time.Duration(1+rng.Intn(3))*time.Millisecond)
+		down("k0", dctx) // must come back with the context's error although Joe cannot finish
+		dc()
+		close(w.gate)
+		wg.Wait()
+		down("k1", context.WithValue(context.Background(), ctxKey{}, "k1")) // ErrProviderClosed
+		t.waitFor("loop.exit")
+		close(fin)
+	}()
+	select {
+	case <-fin:
+	case <-time.After(10 * time.Second):
+		select {
+		case <-w.gate:
+		default:
+			close(w.gate)
+		}
+		buf := make([]byte, 1<<18)
+		n := runtime.Stack(buf, true)
+		t.mu.Lock()
+		evs = append([]jev(nil), t.evs...)
+		t.mu.Unlock()
+		return evs, true, string(buf[:n])
+	}
+	t.mu.Lock()
+	defer t.mu.Unlock()
+	return t.evs, false, ""
+}
 
 // cmdJoe: runs scenarios seed*100000 .. +n and writes their traces; exit 3 = a call blocked (C07), a Go panic kills the process (C06).
 func cmdJoe(args []string) {
